@@ -27,6 +27,10 @@
    returned them together with os.ErrDeadlineExceeded; ([]; 1) is a scripted (0, deadline) read.
    Client kinds: 0 lock-step, 1 back to back (net.Pipe), 2 everything buffered beforehand,
    3 scripted reads with deadline errors and an enforced write deadline.
+   A srv_conn case may carry a write script [j; k] as its fifth argument: the j-th Write call of the
+   connection accepts only k bytes (k < 0: all but one) and fails with a timeout; status 3 = the
+   connection goroutine ended after a failed write.  What is recorded as written is what the
+   connection accepted, i.e. what the client end receives.
    Status 95: the harness process died while the case ran (the case was run in a child process;
    the model never says 95, C16 judges it a violation). *)
 Require Import MB.GoSem MB.Val MB.Entry MB.Spec MB.PacketModel MB.ServerModel MB.ServerSpec.
@@ -126,13 +130,37 @@ Fixpoint conn_trace_ev (h : N * req -> handler_result) (c : conn) (evs : list (l
   | [] => []
   | ev :: rest => let c' := conn_read_ev h c ev in c' :: conn_trace_ev h c' rest
   end.
-Definition proj_conn (mode : N) (reads : list (list N * bool)) : list val :=
-  let states := until_end (conn_trace_ev (script_handler mode) conn_init reads) in
+(* the write script of a case: the j-th Write call (from 0) of the connection accepts only k bytes
+   and fails (k < 0: all but the last byte) *)
+Definition fail_len (ks : Z) (sent : nat) : nat := if (ks <? 0)%Z then (sent - 1)%nat else Z.to_nat ks.
+(* the states after each read and whether the loop ended by a failed write; stops there *)
+Fixpoint conn_trace_w (h : N * req -> handler_result) (c : conn) (nw : nat) (wf : option (nat * Z))
+    (evs : list (list N * bool)) : list conn * bool :=
+  match evs with
+  | [] => ([], false)
+  | ev :: rest =>
+      let c0 := conn_read_ev h c ev in
+      let sent := (length (c_written c0) - length (c_written c))%nat in
+      let wrote := (0 <? sent)%nat in
+      let fail := match wf with
+                  | Some (j, ks) => if wrote && (nw =? j)%nat then Some (fail_len ks sent) else None
+                  | None => None
+                  end in
+      let (c', failed) := conn_read_w h c ev fail in
+      if failed then ([c'], true) else
+      let (cs, f) := conn_trace_w h c' (if wrote then S nw else nw) wf rest in (c' :: cs, f)
+  end.
+Definition proj_conn_w (mode : N) (reads : list (list N * bool)) (wf : option (nat * Z)) : list val :=
+  let (trace, failed) := conn_trace_w (script_handler mode) conn_init 0 wf reads in
+  let states := until_end trace in
   (* a read after the connection ended cannot have been observed: such a case is malformed *)
   if negb (length states =? length reads)%nat then [VI 97%Z] else
   [VL (map (fun c => VB (c_written c)) states);
-   VI (status_code (last_status states));
+   VI (if failed then 3%Z else status_code (last_status states));
    vnat (count_growth 0 states)].
+Definition proj_conn (mode : N) (reads : list (list N * bool)) : list val := proj_conn_w mode reads None.
+Definition wfail_of (v : val) : option (nat * Z) :=
+  match v with VL [VI j; VI ks] => Some (Z.to_nat j, ks) | _ => None end.
 
 Definition run_conn (a : list val) : val :=
   match a with
@@ -140,6 +168,11 @@ Definition run_conn (a : list val) : val :=
       match events_of rv with
       | Some reads => VL (proj_conn (zN mode) reads ++ [proj_whole (zN mode) stream])
       | None => v_bad
+      end
+  | [VI mode; VI _; rv; VB stream; wv] =>
+      match events_of rv, wfail_of wv with
+      | Some reads, Some wf => VL (proj_conn_w (zN mode) reads (Some wf) ++ [proj_whole (zN mode) stream])
+      | _, _ => v_bad
       end
   | _ => v_bad
   end.
@@ -186,7 +219,7 @@ Definition steps_of (v : val) : option (list (list N * Z)) :=
 Definition whole_of (v : val) : option (list N * Z) :=
   match v with VL [VB b; VI _; VI st] => Some (b, st) | _ => None end.
 
-Definition check_C15 (chunks : list (list N)) (steps : list (list N * Z)) (wb : list N) (wst : Z) : N :=
+Definition check_C15_w (wf : option (nat * Z)) (chunks : list (list N)) (steps : list (list N * Z)) (wb : list N) (wst : Z) : N :=
   let s := concat chunks in
   let (frames, tl) := frames_of s in
   if existsb may_panic frames || existsb one_byte_pdu frames then NOT_JUDGED else
@@ -201,20 +234,35 @@ Definition check_C15 (chunks : list (list N)) (steps : list (list N * Z)) (wb : 
       if (1 <? length rs - m)%nat then VIOLATES else
       if negb (Z.eqb wst (if is_garbage tl then 1 else 0)) then VIOLATES else
       (* every read *)
-      let fix go (k : nat) (todo : list (list N * Z)) (ended : bool) : bool :=
+      (* [nw] Write calls so far, [prev] the bytes that should be on the wire so far.  When the
+         case's write script makes the transport accept only part of a Write and fail it, exactly
+         that part is on the wire, nothing more is ever sent and the connection is closed: what
+         the client has received is a prefix of the correct replies *)
+      let fix go (k : nat) (todo : list (list N * Z)) (ended : bool) (nw : nat) (prev : list N) : bool :=
         match todo with
         | [] => true
         | (cum, st) :: rest =>
             if ended then false else
             let (fk, tk) := frames_of (concat (firstn k chunks)) in
             let expect := (concat (firstn (length fk) replies) ++ (if is_garbage tk then farewell else []))%list in
-            list_eqb cum expect && Z.eqb st (if is_garbage tk then 1 else 0) && go (S k) rest (is_garbage tk)
+            let sent := skipn (length prev) expect in
+            let wrote := negb (is_nil sent) in
+            match (match wf with
+                   | Some (j, ks) => if wrote && (nw =? j)%nat then Some (fail_len ks (length sent)) else None
+                   | None => None end) with
+            | Some kk => list_eqb cum (prev ++ firstn kk sent)%list && negb (Z.eqb st 0) && is_nil rest
+            | None =>
+                list_eqb cum expect && Z.eqb st (if is_garbage tk then 1 else 0) &&
+                go (S k) rest (is_garbage tk) (if wrote then S nw else nw) expect
+            end
         end in
-      if negb (go 1%nat steps false) then VIOLATES else
+      if negb (go 1%nat steps false 0%nat []) then VIOLATES else
       (* all chunks were consumed unless the connection was closed *)
       let closed_at_end := match rev steps with (_, st) :: _ => negb (Z.eqb st 0) | [] => false end in
       if negb closed_at_end && negb (length steps =? length chunks)%nat then VIOLATES else HOLDS
   end.
+
+Definition check_C15 := check_C15_w None.
 
 Definition verdict_asm_C15 (a : list val) (out : val) : N :=
   match a, out with
@@ -247,6 +295,14 @@ Definition verdict_conn_C15 (a : list val) (out : val) : N :=
           if Z.eqb st 0 && negb (list_eqb (concat reads) stream) then VIOLATES else
           check_C15 reads steps wb wst
       | _, _, _ => VIOLATES
+      end
+  | [VI m; VI _; rv; VB stream; wv], VL [cums; VI st; VI _; wo] =>
+      if negb (judged_mode m) then NOT_JUDGED else
+      match chunks_of rv, conn_steps cums (closed_code st), whole_of wo, wfail_of wv with
+      | Some reads, Some steps, Some (wb, wst), Some wf =>
+          if Z.eqb st 0 && negb (list_eqb (concat reads) stream) then VIOLATES else
+          check_C15_w (Some wf) reads steps wb wst
+      | _, _, _, _ => VIOLATES
       end
   | _, _ => NOT_JUDGED
   end.
@@ -343,6 +399,16 @@ Definition verdict_conn_C16 (a : list val) (out : val) : N :=
   match a, out with
   | [VI m; VI _; rv; VB _], VL [cums; VI st; VI _; _] =>
       if negb (judged_mode m) then NOT_JUDGED else judge_conn_C16 rv cums st
+  | [VI m; VI _; rv; VB _; _], VL [cums; VI st; VI _; _] =>
+      (* a case with a failing Write: when the connection ended by the failed write (status 3) the
+         reply cut by the transport is not judged, everything before it is; otherwise as usual *)
+      if negb (judged_mode m) then NOT_JUDGED else
+      if Z.eqb st 3 then
+        match rv, cums with
+        | VL rl, VL cl => judge_conn_C16 (VL (removelast rl)) (VL (removelast cl)) 0
+        | _, _ => VIOLATES
+        end
+      else judge_conn_C16 rv cums st
   | _, _ => NOT_JUDGED
   end.
 (* two connections of one server: each judged as if it were alone, and the server must still
